@@ -404,7 +404,6 @@ void janet_bytecode_movopt(JanetFuncDef *def) {
 int janet_verify(JanetFuncDef *def) {
     int vargs = !!(def->flags & JANET_FUNCDEF_FLAG_VARARG);
     int32_t i;
-    int32_t maxslot = def->arity + vargs;
     int32_t sc = def->slotcount;
 
     if (def->bytecode_length == 0) return 1;
@@ -414,7 +413,9 @@ int janet_verify(JanetFuncDef *def) {
      * in janet_fiber_funcframe. */
     if (sc < 0 || sc > JANET_VERIFY_MAX_SLOTS) return 2;
 
-    if (maxslot > sc) return 2;
+    /* The parameters (and the rest tuple) live in the first slots. Compare without
+     * computing arity + vargs, which overflows for arity = INT32_MAX. */
+    if (def->arity < 0 || def->arity > sc - vargs) return 2;
 
     /* Verify each instruction */
     for (i = 0; i < def->bytecode_length; i++) {
